@@ -2,9 +2,12 @@
     pairwise distinct instants), the artificial-id counter only renames artificial (FEE) rows, and
     the places where a Python set reaches the output go through a sort with an injective key. *)
 From Coq Require Import Permutation Sorted.
-From RP2V Require Import Base.Prelude Base.Time Base.Dec Base.Sorting Model.Types Model.Generated Model.Txn
-  Model.Matcher Model.MatchSpec Model.Pipeline Model.Parser Model.Computed Model.MainRun
-  Proofs.SortingProofs Proofs.PipelineWf Proofs.BalanceProofs Proofs.YearlyProofs Proofs.RunLemmas.
+From RP2V Require Import Base.Prelude Base.Time Base.Dec.
+From RP2V Require Import Base.Sorting Model.Types Model.Generated.
+From RP2V Require Import Model.Txn Model.Matcher Model.MatchSpec.
+From RP2V Require Import Model.Pipeline Model.Parser Model.Computed.
+From RP2V Require Import Model.MainRun Proofs.SortingProofs Proofs.PipelineWf.
+From RP2V Require Import Proofs.BalanceProofs Proofs.YearlyProofs Proofs.RunLemmas.
 Open Scope Z_scope.
 
 (** * 1. permuting the rows of the tables *)
